@@ -40,3 +40,6 @@ Proof.
   - apply (dfs_reachable out r evs V' H).
   - eapply dfs_nested; eauto.
 Qed.
+
+Lemma reverse_spec : forall xs, reverse xs = rev xs.
+Proof. intros xs. unfold reverse. symmetry. apply rev_alt. Qed.
